@@ -85,3 +85,166 @@ pub fn fnv(s: &[u8]) -> u64 {
     }
     h
 }
+
+/// Watchdog for single cases: code of the system under test that never returns, or that
+/// allocates without bound, must become a verdict about *that case* instead of taking the
+/// worker (and the machine) down.
+///
+/// A check wraps the execution of one case in `watch::enter(case)`; a background thread of the
+/// worker looks every 100 ms at how long the current case has been running and how much the
+/// resident set has grown since it was entered. When a bound is exceeded it writes a report
+/// holding one violation (`case_terminates_within_resource_bounds`, with the case as replay)
+/// and ends the process. In replay mode it prints the verdict instead.
+pub mod watch {
+    use std::{
+        path::PathBuf,
+        sync::Mutex,
+        time::{Duration, Instant},
+    };
+
+    use serde_json::{json, Value};
+
+    struct Current {
+        case: Value,
+        what: String,
+        since: Instant,
+        rss_at_entry: u64,
+        max_secs: u64,
+    }
+
+    static CURRENT: Mutex<Option<Current>> = Mutex::new(None);
+
+    /// Fail-fast: once a worker has recorded a violation and has used up its budget, it stops
+    /// enumerating further cases (the run is a counterexample then, not a coverage statement;
+    /// the report says so). Never triggers on a tree without violations.
+    static VIOLATIONS: std::sync::atomic::AtomicU64 = std::sync::atomic::AtomicU64::new(0);
+    static STOP: std::sync::atomic::AtomicBool = std::sync::atomic::AtomicBool::new(false);
+
+    /// (property id, known findings): violations that match a listed known finding do not count
+    /// towards fail-fast (the run goes on and still covers everything).
+    static KNOWN: Mutex<Option<(String, crate::report::KnownFindings)>> = Mutex::new(None);
+
+    pub fn set_known(property: &str, known: crate::report::KnownFindings) {
+        *KNOWN.lock().unwrap_or_else(|e| e.into_inner()) = Some((property.to_string(), known));
+    }
+
+    pub fn note_violation(oracle: &str, witness: &Value) {
+        if let Some((prop, known)) = KNOWN.lock().unwrap_or_else(|e| e.into_inner()).as_ref() {
+            let v = crate::report::Violation {
+                oracle: oracle.to_string(),
+                witness: witness.clone(),
+                case: Value::Null,
+                detail: String::new(),
+                ordinal: 0,
+            };
+            if known.matching(prop, &v).is_some() {
+                return;
+            }
+        }
+        VIOLATIONS.fetch_add(1, std::sync::atomic::Ordering::Relaxed);
+    }
+
+    /// True once the fail-fast condition holds; enumerators skip the remaining cases.
+    pub fn stopped() -> bool {
+        STOP.load(std::sync::atomic::Ordering::Relaxed)
+    }
+
+    pub struct Guard;
+
+    impl Drop for Guard {
+        fn drop(&mut self) {
+            *CURRENT.lock().unwrap_or_else(|e| e.into_inner()) = None;
+        }
+    }
+
+    /// Mark the start of one case (the returned guard marks its end). Cases of the checks that
+    /// use this complete in milliseconds; the default bound is 30 s (VP_CASE_SECONDS).
+    pub fn enter(what: &str, case: Value) -> Guard {
+        enter_secs(what, case, env_u64("VP_CASE_SECONDS", 30))
+    }
+
+    /// Same with an explicit time bound (for cases that legitimately wait, e.g. on deadlines).
+    pub fn enter_secs(what: &str, case: Value, max_secs: u64) -> Guard {
+        *CURRENT.lock().unwrap_or_else(|e| e.into_inner()) = Some(Current {
+            case,
+            what: what.to_string(),
+            since: Instant::now(),
+            rss_at_entry: rss_bytes(),
+            max_secs,
+        });
+        Guard
+    }
+
+    pub fn rss_bytes() -> u64 {
+        std::fs::read_to_string("/proc/self/statm")
+            .ok()
+            .and_then(|s| s.split_whitespace().nth(1).and_then(|p| p.parse::<u64>().ok()))
+            .map(|pages| pages * 4096)
+            .unwrap_or(0)
+    }
+
+    fn env_u64(name: &str, default: u64) -> u64 {
+        std::env::var(name).ok().and_then(|s| s.parse().ok()).unwrap_or(default)
+    }
+
+    pub enum Mode {
+        /// write a one-violation report to this path and exit 0 (the parent merges it); the
+        /// number is the fail-fast budget in seconds
+        Worker(PathBuf, u64),
+        /// print the verdict for this replay file and exit 1
+        Replay { prop: String, file: String },
+    }
+
+    pub fn start(mode: Mode) {
+        let max_growth = env_u64("VP_CASE_RSS_MB", 3072) << 20;
+        let started = Instant::now();
+        std::thread::spawn(move || loop {
+            std::thread::sleep(Duration::from_millis(100));
+            if let Mode::Worker(_, budget) = &mode {
+                if VIOLATIONS.load(std::sync::atomic::Ordering::Relaxed) > 0 && started.elapsed().as_secs() >= *budget {
+                    STOP.store(true, std::sync::atomic::Ordering::Relaxed);
+                }
+            }
+            let hit = {
+                let cur = CURRENT.lock().unwrap_or_else(|e| e.into_inner());
+                match cur.as_ref() {
+                    None => None,
+                    Some(c) => {
+                        let secs = c.since.elapsed().as_secs();
+                        let growth = rss_bytes().saturating_sub(c.rss_at_entry);
+                        if secs >= c.max_secs {
+                            Some((c.case.clone(), c.what.clone(), "time", format!("still running after {secs} s")))
+                        } else if growth >= max_growth {
+                            Some((c.case.clone(), c.what.clone(), "memory", format!("resident memory grew by {} MiB inside this one case (after {} ms)", growth >> 20, c.since.elapsed().as_millis())))
+                        } else {
+                            None
+                        }
+                    }
+                }
+            };
+            if let Some((case, what, kind, detail)) = hit {
+                let detail = format!("{what}: {detail}; the case was abandoned by the watchdog (a case of this size completes in milliseconds)");
+                match &mode {
+                    Mode::Worker(out, _) => {
+                        let mut r = crate::report::Report::default();
+                        r.violation(
+                            "case_terminates_within_resource_bounds",
+                            json!({"exceeded": kind}),
+                            case,
+                            detail,
+                            0,
+                        );
+                        r.count("workers_stopped_by_the_case_watchdog", 1);
+                        let _ = std::fs::write(out, serde_json::to_vec(&r).unwrap());
+                        std::process::exit(0);
+                    }
+                    Mode::Replay { prop, file } => {
+                        println!("FAILED case_terminates_within_resource_bounds: {detail}");
+                        println!("VIOLATION property={prop} replay={file}");
+                        std::process::exit(1);
+                    }
+                }
+            }
+        });
+    }
+}
